@@ -237,7 +237,7 @@ let gen_one (rng : Random.State.t) (id : ostring) =
   let st = ref (init_of ths) in
   let armed_at = Hashtbl.create 4 and counter = ref 0 in
   let fired = ref [] in
-  let creators_first = Random.State.int rng 10 < 6 in
+  let creators_first = Random.State.int rng 100 < 75 in
   let last = ref None in
   let steps = ref 0 in
   let continue_ = ref true in
@@ -258,8 +258,8 @@ let gen_one (rng : Random.State.t) (id : ostring) =
     let item =
       match enabled, fire_c with
       | [], None -> None
-      | [], Some c -> Some (SFire (pos_of_int c))
-      | _, Some c when Random.State.int rng 100 < 12 -> Some (SFire (pos_of_int c))
+      | [], Some c -> if Random.State.int rng 100 < 50 then Some (SFire (pos_of_int c)) else None
+      | _, Some c when Random.State.int rng 100 < 6 -> Some (SFire (pos_of_int c))
       | l, _ ->
           (match !last with
            | Some t when List.mem t l && Random.State.int rng 100 < 45 -> Some (SRun t)
